@@ -188,6 +188,14 @@ package builder
 
 // ---- default matching (C04) and coverage (C05) ---------------------------------------------------------------------------------
 
+// C06 "never assigned, whatever enclosing-struct copies would do": a destination struct field is copied as a whole
+// only when no explicit notation addresses a path below it (known finding F9: it is copied nevertheless).
+//@ spec notationBelow(o option.Options, p string) bool =
+//@     exists(i, 0, len(o.SkipFields), hasPrefix(o.SkipFields[i].pattern, p + ".")) ||
+//@     exists(i, 0, len(o.Converters), hasPrefix(o.Converters[i].m.dst.pattern, p + ".")) ||
+//@     exists(i, 0, len(o.NameMapper), hasPrefix(o.NameMapper[i].dst.pattern, p + ".")) ||
+//@     exists(i, 0, len(o.TemplatedNameMapper), hasPrefix(o.TemplatedNameMapper[i].dst.pattern, p + ".")) ||
+//@     exists(i, 0, len(o.Literals), hasPrefix(o.Literals[i].dst.pattern, p + "."))
 //@ spec cmpName(o option.Options, a string, b string) bool = cond(o.ExactCase, a == b, equalFold(a, b))
 //@ spec readyB(b *assignmentBuilder) bool = wfB(b) && convsReady(b.opts) && templReady(b.opts)
 //@ spec okResult(a gmodel.Assignment, l string) bool = a == nil || gmodel.covers(a, l)
@@ -209,13 +217,16 @@ package builder
 //@   ensures {C04,C05} err == nil && okResult(a, bmodel.assignExpr(lhs)) && option.skipInv(b.opts)
 //@   ensures {C14} kept(option.pmInv, *option.PatternMatcher)
 //@   ensures {C04} b.opts.Rule == gmodel.MatchRuleNone ==> isNoMatch(a, bmodel.assignExpr(lhs))
+//@   ensures {C06} is(a, gmodel.SimpleField) && isStructT(derefT(bmodel.exprType(lhs))) ==> !old(notationBelow(b.opts, path(lhs)))
 //@   ensures {C04} !b.opts.Getter && b.opts.Rule != gmodel.MatchRuleName ==> isNoMatch(a, bmodel.assignExpr(lhs))
 //@   atcall IterateStructMethods: {C04} opts.Getter && opts.Rule != gmodel.MatchRuleNone
 //@   atcall IterateStructFields: {C04} opts.Rule == gmodel.MatchRuleName && *a == nil && *err == nil
 //@   iter IterateStructMethods invariant kept(option.pmInv, *option.PatternMatcher)
 //@   iter IterateStructMethods invariant *err == nil && okResult(*a, *lhsExpr) && (*a != nil ==> $done) && option.skipInv(b.opts) && *lhsExpr == bmodel.assignExpr(lhs)
+//@   iter IterateStructMethods invariant {C04} $done ==> *a != nil || *nested
 //@   iter IterateStructFields invariant kept(option.pmInv, *option.PatternMatcher)
 //@   iter IterateStructFields invariant *err == nil && okResult(*a, *lhsExpr) && (*a != nil ==> $done) && option.skipInv(b.opts) && *lhsExpr == bmodel.assignExpr(lhs)
+//@   iter IterateStructFields invariant {C04} $done ==> *a != nil || *nested
 //@
 //@ spec fieldNode(lhs bmodel.Node, i int) bmodel.Node = box(bmodel.StructFieldNode{parent: lhs, field: fieldAt(structOf(bmodel.exprType(lhs)), i)})
 //@ spec accField(b *assignmentBuilder, lhs bmodel.Node, i int) bool = accessible(b, bmodel.exprType(lhs), nameOf(fieldAt(structOf(bmodel.exprType(lhs)), i)))
@@ -259,6 +270,8 @@ package builder
 //@   ensures {C10,C01} m != nil && err == nil ==> assignable(derefT(typeOfObj(dst)), derefT(m.DstSide)) && assignable(derefT(typeOfObj(src)), derefT(m.SrcSide))
 //@   ensures {C10} m != nil && err == nil && len(m.AdditionalArgs) > 0 ==> len(m.AdditionalArgs) == len(additionalArgs)
 //@   ensures {C10,C01} m != nil && err == nil ==> forall(i, 0, len(m.AdditionalArgs), assignable(typeOfObj(additionalArgs[i]), m.AdditionalArgs[i]))
+//@   ensures {C03,C10} m != nil && !(m.RetError && !retError) && assignable(derefT(typeOfObj(dst)), derefT(m.DstSide)) && assignable(derefT(typeOfObj(src)), derefT(m.SrcSide)) && len(m.AdditionalArgs) == 0 &&
+//@           (has(p.imports, pkgPath(pkgOfObj(refOf(m.Func)))) && p.imports[pkgPath(pkgOfObj(refOf(m.Func)))] != "" ==> exportedOf(refOf(m.Func))) ==> err == nil
 //@   loop 1 invariant $k <= len(m.AdditionalArgs) && forall(i, 0, $k, assignable(typeOfObj(additionalArgs[i]), m.AdditionalArgs[i]))
 //@
 //@ func ordinalNumber(n) (r)
